@@ -117,6 +117,10 @@ func routesFor(sc *Scn) string {
 		return `[{"match":[{"h_need":{"id":"abc","k":3,"pat":"abc"}}],"handle":[{"handler":"h_timed"}]}]`
 	case "needbig":
 		return fmt.Sprintf(`[{"match":[{"h_need":{"id":"big","k":%d}}],"handle":[{"handler":"h_timed"}]}]`, limit+5000)
+	case "eatbig":
+		// a first route is decided on three buffered chunks and its non-terminal handler
+		// consumes two of them; the next route can never be decided within the limit
+		return fmt.Sprintf(`[{"match":[{"h_need":{"id":"two","k":%d}}],"handle":[{"handler":"h_consume","id":"c","n":%d}]},{"match":[{"h_need":{"id":"big","k":%d}}],"handle":[{"handler":"h_timed"}]}]`, 2*chunk+1, 2*chunk+1, limit+5000)
 	}
 	panic(sc.Routes)
 }
@@ -129,6 +133,7 @@ type result struct {
 	closedAt    int64
 	closed      bool
 	pulled      int
+	bufHigh     int // high-water mark of the matching buffer (seen at every matcher evaluation)
 	firstByteAt int64
 }
 
@@ -136,6 +141,11 @@ func execute(x *explore.Exec, sc *Scn) *result {
 	res := &result{closedAt: -1, firstByteAt: -1}
 	H = &hlog{}
 	curConn = nil
+	hm.OnMatch = func(cx *layer4.Connection) {
+		if n := layer4.VerifBufLen(cx); n > res.bufHigh {
+			res.bufHigh = n
+		}
+	}
 	layer4.VerifResetPools()
 	var trace func(string)
 	if os.Getenv("VERIF_TRACE") != "" {
@@ -330,12 +340,15 @@ func check(x *explore.Exec, sc *Scn, r *result) {
 		if ref >= 0 && noTimeDev && abortAt > ref+T+eps {
 			x.Fail("matching-outlasts-timeout:"+sc.Proto, "matching ended %.3fs after it started, later than the %.3fs timeout (no thread was delayed); %s", float64(abortAt-ref)/1e9, float64(T)/1e9, desc())
 		}
-	case "needbig":
+	case "needbig", "eatbig":
 		if handlerStarted {
 			x.Fail("handler-after-buffer-full", "a handler ran although matching needs more than the buffer limit; %s", desc())
 		}
-		if r.pulled > limit+chunk {
+		if sc.Routes == "needbig" && r.pulled > limit+chunk {
 			x.Fail("buffered-beyond-limit", "%d bytes were pulled from the client during matching, more than limit+chunk = %d; %s", r.pulled, limit+chunk, desc())
+		}
+		if r.bufHigh > limit+chunk {
+			x.Fail("buffered-beyond-limit", "the matching buffer held %d bytes, more than limit+chunk = %d; %s", r.bufHigh, limit+chunk, desc())
 		}
 		if abortAt < 0 {
 			x.Fail("matching-never-ended", "matching did not end; %s", desc())
@@ -378,7 +391,7 @@ func scenarios(tier string, yield func(any) bool) {
 	for _, proto := range []string{"tcp", "udp"} {
 		for _, T := range timeouts {
 			for _, ph := range phases {
-				for _, routes := range []string{"undecided", "nonterm", "sub", "decide", "needbig"} {
+				for _, routes := range []string{"undecided", "nonterm", "sub", "decide", "needbig", "eatbig"} {
 					var clients []string
 					switch routes {
 					case "undecided":
@@ -387,7 +400,7 @@ func scenarios(tier string, yield func(any) bool) {
 						clients = []string{"trickle"}
 					case "decide":
 						clients = []string{"late"}
-					case "needbig":
+					case "needbig", "eatbig":
 						clients = []string{"flood"}
 					}
 					for _, cl := range clients {
